@@ -13,7 +13,7 @@ for d in /verif/benign/*/; do
   git -C /repo apply "$d/patch.diff"
   nb=$((nb+1)); al=""
   for c in $ALL; do ./check "$c" > /tmp/regress_out.txt 2>&1 || al="$al $c"; done
-  git -C /repo checkout -- .
+  git -C /repo checkout -- . && git -C /repo clean -fdq src
   if [ -n "$al" ]; then
     if grep -q "\"$n\"" /verif/benign/KNOWN_LIMITS.json; then echo "BENIGN $n: alarm in$al (KNOWN LIMIT, see benign/KNOWN_LIMITS.json)"; kl=$((kl+1)); else echo "BENIGN $n: FALSE ALARM in$al"; fa=$((fa+1)); fi
   else echo "BENIGN $n: silent"; fi
@@ -26,7 +26,7 @@ for d in /verif/seeded/*/; do
   git -C /repo apply "$d/patch.diff"
   ns=$((ns+1))
   if ./check "$p" > /tmp/regress_out.txt 2>&1; then echo "SEEDED $n: MISSED by $p"; miss=$((miss+1)); else echo "SEEDED $n: detected ($(grep -m1 -E '^  [A-Za-z-]+:' /tmp/regress_out.txt | cut -c1-110))"; fi
-  git -C /repo checkout -- .
+  git -C /repo checkout -- . && git -C /repo clean -fdq src
 done
 fi
 echo "SUMMARY benign=$nb false_alarms=$fa known_limits=$kl seeded=$ns missed=$miss skipped=$skipped"
